@@ -170,6 +170,30 @@ int __wrap_ftruncate(int fd, off_t len) {
   return __real_ftruncate(fd, len);
 }
 
+// the other ways of giving a file its size fail where ftruncate fails, each in its own error convention
+int __real_posix_fallocate(int fd, off_t off, off_t len);
+int __wrap_posix_fallocate(int fd, off_t off, off_t len) {
+  if (!g_on) return __real_posix_fallocate(fd, off, len);
+  auto it = g_fds.find(fd);
+  if (it == g_fds.end()) return __real_posix_fallocate(fd, off, len);
+  int err = transient(K_FTRUNCATE);
+  if (!err && it->second.policy == P_FULL) { err = ENOSPC; g_st.policy_failures++; }
+  if (err) { g_st.trace += strf("posix_fallocate=%s ", errname(err)); return err; }   // returns the error number, errno untouched
+  g_st.trace += "posix_fallocate=ok ";
+  return __real_posix_fallocate(fd, off, len);
+}
+int __real_fallocate(int fd, int mode, off_t off, off_t len);
+int __wrap_fallocate(int fd, int mode, off_t off, off_t len) {
+  if (!g_on) return __real_fallocate(fd, mode, off, len);
+  auto it = g_fds.find(fd);
+  if (it == g_fds.end()) return __real_fallocate(fd, mode, off, len);
+  int err = transient(K_FTRUNCATE);
+  if (!err && it->second.policy == P_FULL) { err = ENOSPC; g_st.policy_failures++; }
+  if (err) { g_st.trace += strf("fallocate=%s ", errname(err)); errno = err; return -1; }
+  g_st.trace += "fallocate=ok ";
+  return __real_fallocate(fd, mode, off, len);
+}
+
 void *__wrap_mmap(void *addr, size_t len, int prot, int flags, int fd, off_t off) {
   if (!g_on) return __real_mmap(addr, len, prot, flags, fd, off);
   bool ours = fd >= 0 && g_fds.count(fd);
